@@ -181,20 +181,13 @@ Proof.
 Qed.
 
 (* and the library reads those files: the same metadata, the same counters
-   with stack names expanded, provided no name is the expansion of another *)
-Definition no_twin (cs : list (bytes * N)) : Prop :=
-  forall a b, In a (map fst cs) -> In b (map fst cs) -> a <> b -> b <> decode_stack a.
-
-Theorem encode_parse oob meta cs : meta_ok meta -> cs_ok cs -> no_twin cs ->
+   with stack names expanded *)
+Theorem encode_parse oob meta cs : meta_ok meta -> cs_ok cs ->
   exists bs kv cs', spec_encode meta cs = Some bs /\ meta_kv meta = Some kv /\
     parse_with oob bs = POk kv (map (fun c => (decode_stack (fst c), snd c)) cs') /\ Permutation cs' cs.
 Proof.
-  intros Hm Hc Ht. destruct (encode_read meta cs Hm Hc) as (bs & hdr & kv & limit & tbl & He & Ek & E & Hnd & Hperm).
+  intros Hm Hc. destruct (encode_read meta cs Hm Hc) as (bs & hdr & kv & limit & tbl & He & Ek & E & Hnd & Hperm).
   exists bs, kv, (pairs (concat tbl)). split; [exact He|]. split; [exact Ek|]. split; [|exact Hperm].
   rewrite (parse_wf oob bs hdr meta kv limit tbl E).
-  rewrite no_twin_no_clash; [|exact Hnd|intros r _ []|].
-  - unfold decoded, pairs. rewrite map_map. reflexivity.
-  - intros a b Ha Hb Hne. apply Ht; [| |exact Hne].
-    + apply (Permutation_in _ (Permutation_map fst Hperm)). unfold pairs. rewrite map_map. now apply in_map.
-    + apply (Permutation_in _ (Permutation_map fst Hperm)). unfold pairs. rewrite map_map. now apply in_map.
+  unfold decoded, pairs. rewrite map_map. reflexivity.
 Qed.
